@@ -20,9 +20,45 @@ def _alarm(signum, frame):
 _counter = [0]
 
 
+def has_bare_except_star(hy, t):
+    m = hy.models
+    if isinstance(t, m.Expression) and len(t) >= 2 and t[0] == m.Symbol("except*") and isinstance(t[1], m.List) and len(t[1]) == 0:
+        return True
+    return isinstance(t, (m.Sequence, list, tuple)) and any(has_bare_except_star(hy, c) for c in t)
+
+
 def classify(hy, tree, timeout=3.0):
-    """-> (verdict, stage, exception class name, message)
-    verdict: 'ok' | 'user-error' | 'violation' | 'timeout'"""
+    """-> (verdict, stage, exception class name, message); verdict: 'ok' | 'user-error' | 'violation' | 'timeout'.
+    A tree with (except* [] ...) is judged in a child process: Hy compiles it to a TryStar with a bare handler, which
+    CPython's compile() accepts but whose execution -- here: compile-time evaluation by do-mac, eval-when-compile, a
+    macro body -- kills the interpreter with SIGSEGV."""
+    if has_bare_except_star(hy, tree):
+        return classify_in_child(hy, tree, timeout)
+    return classify_here(hy, tree, timeout)
+
+
+def classify_in_child(hy, tree, timeout=3.0):
+    import json
+    import os
+    import subprocess
+    code = ("import sys, json\nsys.path.insert(0, %r)\nsys.path.insert(0, %r)\nimport hy, hy.compiler\n"
+            "from props import valid_oracle as vo\ntree = %s\nprint('RESULT ' + json.dumps(vo.classify_here(hy, tree, %r)))\n"
+            % (os.path.dirname(os.path.dirname(os.path.abspath(hy.__file__))), os.path.dirname(os.path.dirname(os.path.abspath(__file__))),
+               py_repr(tree), timeout))
+    try:
+        p = subprocess.run([sys.executable, "-c", code], capture_output=True, text=True, timeout=60, stdin=subprocess.DEVNULL,
+                           env=dict(os.environ, PYTHONHASHSEED="0"))
+    except subprocess.TimeoutExpired:
+        return ("timeout", "hy_compile", "wall", "")
+    for line in p.stdout.splitlines():
+        if line.startswith("RESULT "):
+            return tuple(json.loads(line[7:]))
+    if p.returncode < 0:
+        return ("violation", "hy_compile", "ProcessKilled", "the compiler process was killed by signal %d" % -p.returncode)
+    return ("violation", "oracle", "ChildFailed", (p.stderr or "")[-200:])
+
+
+def classify_here(hy, tree, timeout=3.0):
     from hy.errors import HyLanguageError
     _counter[0] += 1
     name = "zq_c10_%d" % _counter[0]
@@ -241,6 +277,7 @@ def features(hy, tree):
         kids = list(n) if isinstance(n, (m.Sequence, list, tuple)) else []
         return any(isinstance(a, m.Keyword) and a.name == "as" and isinstance(b, m.Symbol) and str(b) == "_" for a, b in zip(kids, kids[1:]))
     f["as_wildcard"] = any(as_wild(n) for n in nodes) and any(_head(hy, n) == "match" for n in nodes)
+    f["bare_except_star"] = has_bare_except_star(hy, tree)
     f["has_nonlocal"] = any(_head(hy, n) == "nonlocal" and len(n) >= 2 for n in nodes)
     f["bare_unpack_mapping"] = any(_head(hy, n) == "unpack-mapping" and len(n) == 1 for n in nodes)
     f["dot_pattern_short"] = any(_head(hy, n) == "." and len(n) == 2 for n in nodes) and any(_head(hy, n) == "match" for n in nodes)
@@ -284,8 +321,8 @@ def features(hy, tree):
     no_expr = empty = False
     import types
     import warnings
-    for n in nodes[:60]:
-        if not isinstance(n, m.Expression) or n is tree and False:
+    for n in ([] if has_bare_except_star(hy, tree) else nodes[:60]):      # (compiling such a tree here could kill this process)
+        if not isinstance(n, m.Expression):
             continue
         modname = "zq_c10_feat"
         mod = types.ModuleType(modname)
